@@ -196,10 +196,11 @@ func registerZzv(e *Engine) {
 	})
 	e.reg(z+"Cleanup", noop)
 	e.reg(z+"clockAdvance", func(c *CallCtx, st *State, args []Value) []Outcome {
-		dtc := c.E.namedCell(st, "clock.dt", func() Value { return smt.FPC(0) })
-		tc := c.E.namedCell(st, "clock.ticks", func() Value { return smt.IntC(1) })
-		st.heap[dtc] = args[0]
-		st.heap[tc] = smt.Add(st.heap[tc].(*smt.Term), smt.IntC(1))
+		en := c.E
+		sc := en.namedCell(st, "clock.sec", func() Value { return smt.IntC(1700000000) })
+		mc := en.namedCell(st, "clock.ms", func() Value { return smt.BVC(0, 64) })
+		st.heap[mc] = smt.Add(st.heap[mc].(*smt.Term), args[1].(*smt.Term))
+		st.heap[sc] = smt.Add(st.heap[sc].(*smt.Term), args[0].(*smt.Term))
 		return one(st, nil)
 	})
 	e.reg(z+"MutexHeld", func(c *CallCtx, st *State, args []Value) []Outcome {
